@@ -232,12 +232,12 @@ CHECKS['C07'] = dict(
          'and its outcome is a verdict or one of the documented refusals (pipeline_outcomes, reader_total); doc_total / doc_total_sharp prove '
          'the same for the END-TO-END model validateDoc (real walker model, error tree, acknowledgement): the only reachable crash outcomes '
          'are the three err_handler call sites listed as findings (plus map inconsistencies the translator excludes); it assembles the theorems '
-         'of C01, C04, C13, C14, C15. NOT in the composition and therefore decided only by the fuzz: the walker-to-validation glue and map '
-         'switching, the error tree, the 997/999 visitors, the HTML and XML sinks, logging, the context reader\'s tree building. Tied to /repo '
+         'of C01, C04, C13, C14, C15. NOT modelled and therefore decided only by the fuzz: the HTML and XML sinks as driven from x12n_document, '
+         'logging, the context reader\'s tree building, exceptions swallowed around the acknowledgement visitors. Tied to /repo '
          'by a structural mutation fuzz (22 maps x 49 mutation kinds + arbitrary strings x sink subsets x charsets) through x12n_document, '
          'X12Reader and X12ContextReader.iter_segments: any escaping exception other than the documented refusals is a violation keyed by '
          'exception type and innermost pyx12 call site, with a shrunk replay; the reader-level outcome class is also compared with the model.',
-    note=COMMON_NOTE + ' PARTIAL: proof for the modelled core only; the rest of the pipeline is exercised, not proved. Exceptions swallowed inside the ack visitors belong to C06.',
+    note=COMMON_NOTE + ' PARTIAL: proof for the end-to-end model (reader, walker, validation, error tree, acknowledgement); sinks and context reader are exercised, not proved. Exceptions swallowed inside the ack visitors belong to C06.',
     technique='Lean 4 proof (no crash outcome in the composed reader/validation model) + structural mutation fuzz keyed by call site',
     design='DESIGN.md §3 C07')
 
